@@ -21,6 +21,9 @@ PARAMS = {
     'copy': 'i32', 'owned': 'String', 'ref': '&u8', 'str': '&str', 'slice': '&[u8]', 'mutref': '&mut i32', 'mutslice': '&mut [u8]',
     'impossible': '&mut Ctx<\'_>', 'optref': 'Option<&u8>', 'generic': 'G', 'impl': 'impl AsRef<str> + \'static',
 }
+# a `&mut` whose *reference* carries a named lifetime (none in the pointee): an ordinary, matchable argument - only used in the
+# dedicated sub-product below (it needs a method-level lifetime parameter)
+EXTRA_PARAMS = {'mutref_named': '&\'a mut i32'}
 RETURNS = {
     'unit': ('()', None), 'owned': ('u32', None), 'string': ('String', None), 'ref': ('&u8', 'borrow'), 'mutref': ('&mut u8', 'mutborrow'),
     'static': ('&\'static str', None), 'optref': ('Option<&u8>', 'borrow'), 'resref': ('Result<&u8, String>', 'borrow'), 'vecref': ('Vec<&u8>', 'borrow'),
@@ -83,10 +86,10 @@ def method_specs(tier, rnd):
     # every position of every &mut kind for arity 3
     for recv, _ in RECEIVERS[:3]:
         for pos in range(3):
-            for k in ('mutref', 'mutslice', 'impossible'):
+            for k in ('mutref', 'mutslice', 'impossible', 'mutref_named'):
                 params = ['copy', 'str', 'owned']
                 params[pos] = k
-                specs.append(dict(recv=recv, params=params, ret='owned', asy='sync', provided=(pos == 1), unmock='path' if pos == 0 else 'none'))
+                specs.append(dict(recv=recv, params=params, ret='owned', asy='sync', provided=(pos == 1), unmock='path' if pos == 0 and k != 'mutref_named' else 'none'))
     out = []
     seen = set()
     for s in specs:
@@ -107,7 +110,7 @@ def method_specs(tier, rnd):
         out.append(s)
     rnd.shuffle(out)
     # the named sub-products are kept in full; the rest fills up to the limit
-    named = [s_ for s_ in out if s_['asy'] == 'rpit' or (s_['provided'] and not s_['params'])]
+    named = [s_ for s_ in out if s_['asy'] == 'rpit' or (s_['provided'] and not s_['params']) or 'mutref_named' in s_['params']]
     rest = [s_ for s_ in out if s_ not in named]
     out = named + rest
     limit = 300 if tier == 'quick' else 1300
@@ -119,9 +122,11 @@ def render_method(s, mname, tname, idx):
     ps = []
     generics = []
     for i, k in enumerate(s['params']):
-        ty = PARAMS[k]
+        ty = PARAMS.get(k) or EXTRA_PARAMS[k]
         if k == 'generic':
             generics.append('G: \'static + std::fmt::Debug')
+        if k == 'mutref_named':
+            generics.insert(0, '\'a')
         ps.append(('p%d' % i, k, ty))
     ret_ty = RETURNS[s['ret']][0]
     g = '<%s>' % ', '.join(dict.fromkeys(generics)) if generics else ''
